@@ -1051,6 +1051,36 @@ def _assigned_field(n):
     return p_[-1] if p_ else None
 
 
+def P8(F, rep, R, ws):
+    """the quantity the stream's producers compare with the capacity is the distance between put and get position.  If the admission atom
+    uses another member (a separately kept fill level), every method that moves m_tellg or m_tellp must update that member too - a
+    counter that seekg() forgets drifts by the peeked header of every object, and the producer runs ahead by that much more"""
+    st = 'm_uncompressedFile'
+    cls = R.stages.get(st)
+    g, cvs, mtx = guarded_fields(F, cls)
+    wr = [w for w in ws if w['cls'] == cls and w['fn']['simple'] == 'write']
+    for w in wr:
+        rep.count('P8')
+        caps = [d for d in w['disjuncts'] if any(x.get('k') == 'Member' and x.get('name') == 'm_bufferSize' for x in walk(d))]
+        problem = None
+        if not caps:
+            problem = 'no disjunct compares anything with m_bufferSize'
+        else:
+            fields = sorted({x.get('name') for x in walk(caps[0]) if x.get('k') == 'Member' and x.get('dk') == 'field' and x.get('name') in g} - {'m_bufferSize'})
+            derived = [f_ for f_ in fields if f_ not in ('m_tellp', 'm_tellg')]
+            if derived:
+                movers = [f for f in methods_of(F, cls) if f.get('kind') not in ('ctor', 'dtor') and writes_fields(f, {'m_tellg', 'm_tellp'})]
+                lazy = [short(f['name']) for f in movers if not writes_fields(f, set(derived))]
+                if lazy:
+                    problem = ('the capacity is compared with %s, which %s do(es) not update although it moves the get / put position: the value drifts '
+                               'away from m_tellp - m_tellg and the producer is admitted further and further ahead' % ('/'.join(derived), ', '.join(sorted(set(lazy)))))
+            elif set(fields) != {'m_tellp', 'm_tellg'}:
+                problem = 'the capacity atom [%s] does not involve both positions' % expr_str(caps[0])
+        rep.ob('P8', '%s|%s' % (short(w['fn']['name']), w['fn']['sig'][:40]), problem is None, rep.fn_site(w['fn'], w['line']),
+               '%s: the fill level held against m_bufferSize is m_tellp - m_tellg (or a member every mover of the positions maintains)' % short(w['fn']['name'])
+               if problem is None else '%s: %s' % (short(w['fn']['name']), problem), nontrivial=True)
+
+
 def P6(F, rep, R, FL):
     """the get position never moves back behind released data: in the functions that consume from the stream, no seekg by a possibly
     negative distance follows dropOldData() on the same path (dropOldData releases the front container as soon as the get position has
